@@ -241,6 +241,12 @@ def nnx_part(chk):
     run('filter_state', lambda: nnx.filter_state(state, *fs), case['invalid'], as_list)
     run('State.split', lambda: state.split(*fs), case['invalid'] or rest_nonempty, as_list)
     run('State.filter', lambda: state.filter(*fs), case['invalid'], as_list)
+    if not case['invalid'] and (idx % 3 == 0 or chk.thorough):
+      # two more catch-alls after the list: the first one takes the remainder, the second one stays empty (first match)
+      want = exp[:-1] + [exp[-1], []]
+      run('split_state+two-catch-alls', lambda: nnx.split_state(state, *fs, ..., ...), False, as_list)
+      run('filter_state+two-catch-alls', lambda: nnx.filter_state(state, *fs, ..., True), False, as_list)
+      want = exp[:-1]
     if idx % 4 == 0 or chk.thorough:
       # module-level APIs: the raw leaf (id 7) is not part of a module's state
       want = [[i for i in g if i != 7] for g in exp[:-1]]
